@@ -417,6 +417,19 @@ def warm_readd_scenario(rng, g):
 def gen_scenario(seed, index, profile):
     rng = random.Random("%s/%s/%s" % (seed, profile.get("name", ""), index))
     g = Gen(rng, profile)
+    # a seventh of the scenarios hand the rewards over as a boolean / narrow-integer numpy array whenever a batch
+    # consists of integers the dtype holds (own stream: the scenario stream stays what it was)
+    r2 = random.Random("%s/rdt/%s/%s" % (seed, profile.get("name", ""), index))
+    if r2.random() < 0.15:
+        g.cfg["reward_dtype"] = r2.choice(["bool", "bool", "uint8", "int8", "int16", "int32"])
+    if g.lpk not in ("thompson", "popularity") and r2.random() < 0.08:
+        # all-negative rewards: an arm that has never been observed (expectation 0) is then the best arm
+        scn = g.build() if not (profile.get("warm_readd") and index % 12 == 5) else None
+        if scn is not None:
+            for op in scn["ops"]:
+                if op.get("r") is not None:
+                    op["r"] = [-abs(x) - 1 if isinstance(x, (int, float)) and not isinstance(x, bool) else x for x in op["r"]]
+            return scn
     if profile.get("warm_readd") and index % 12 == 5 and g.npk is None and g.lpk in WARM_OK and len(g.arms + g.spare) >= 3:
         return warm_readd_scenario(rng, g)
     return g.build()
